@@ -74,11 +74,14 @@ Max(T) == CHOOSE t \in T : \A u \in T : t >= u
 (*   sh[n]      the co_shutdown() sent to n by its scheduler:              *)
 (*              none | running | creq | cing | done | cancelled            *)
 (*              (creq: cancel requested on a relaying nested scheduler;    *)
-(*               cing: request delivered, waiting for its own handlers)    *)
+(*               cing: request delivered, waiting for its own handlers; for*)
+(*               a job: its cancelled handler is still unwinding, scdur)   *)
 (*   relayed[s] the co_shutdown() sent to s has begun executing            *)
 (*   did[s]     _did_shutdown                                              *)
 (*   sres[s]    none | true | false   value of s's broadcasting co_shutdown*)
-(*   ts, sdl    handler start time; shutdown deadline of a broadcast       *)
+(*   ts, tsc, sdl  handler start / handler cancel time; shutdown deadline  *)
+(*              of a broadcast                                             *)
+(*   ucf        the caller's cancellation of the top-level run has fired   *)
 (*   nstart[n]  number of body entries;  nshut[n] co_shutdown() received   *)
 (***************************************************************************)
 
